@@ -218,24 +218,45 @@ pub enum Pos {
     MixedText,
 }
 
+// Payload modes. `Domain` = the round-trippable domain (C06); `HostileRaw` = hostile payloads without
+// any position filter (C13); `Benign` = same random draws, but every payload is replaced by a unique
+// markup-free token of the same emptiness, and the (token, hostile payload) pairs are recorded.
+thread_local! {
+    static MODE: std::cell::Cell<u8> = std::cell::Cell::new(0);
+    static PAIRS: std::cell::RefCell<Vec<(String, String)>> = std::cell::RefCell::new(Vec::new());
+}
+pub const MODE_DOMAIN: u8 = 0;
+pub const MODE_HOSTILE_RAW: u8 = 1;
+pub const MODE_BENIGN: u8 = 2;
+pub fn set_mode(m: u8) {
+    MODE.with(|c| c.set(m));
+    PAIRS.with(|p| p.borrow_mut().clear());
+}
+pub fn take_pairs() -> Vec<(String, String)> {
+    PAIRS.with(|p| std::mem::take(&mut *p.borrow_mut()))
+}
+/// first code point of the benign stand-ins for `char` payloads
+pub const BENIGN_CHAR_BASE: u32 = 0x4E00;
+
 pub fn gen_string(r: &mut Rng, pos: Pos) -> String {
-    let mut s = match r.below(10) {
-        0..=5 => r.pick(POOL).to_string(),
-        6 => {
-            let mut s = String::new();
-            for _ in 0..2 + r.below(3) {
-                s.push_str(*r.pick(POOL));
-            }
-            s
+    let mode = MODE.with(|c| c.get());
+    let raw = gen_string_raw(r);
+    match mode {
+        MODE_HOSTILE_RAW => {
+            PAIRS.with(|p| p.borrow_mut().push((String::new(), raw.clone())));
+            raw
         }
-        7 => r.pick(WS_EDGES).to_string(),
-        8 => {
-            // random unicode
-            let n = r.below(12);
-            (0..n).map(|_| char::from_u32(r.below(0x3000) as u32).filter(|c| *c != '\u{FEFF}').unwrap_or('q')).collect()
-        }
-        _ => format!("v{}", r.below(1000)),
-    };
+        MODE_BENIGN => PAIRS.with(|p| {
+            let mut p = p.borrow_mut();
+            let tok = if raw.is_empty() { String::new() } else { format!("b{}", p.len()) };
+            p.push((tok.clone(), raw));
+            tok
+        }),
+        _ => filter_pos(raw, pos),
+    }
+}
+
+fn filter_pos(mut s: String, pos: Pos) -> String {
     match pos {
         Pos::Attr => {}
         Pos::Text | Pos::MixedText => {
@@ -254,7 +275,46 @@ pub fn gen_string(r: &mut Rng, pos: Pos) -> String {
     s
 }
 
+fn gen_string_raw(r: &mut Rng) -> String {
+    let s = match r.below(10) {
+        0..=5 => r.pick(POOL).to_string(),
+        6 => {
+            let mut s = String::new();
+            for _ in 0..2 + r.below(3) {
+                s.push_str(*r.pick(POOL));
+            }
+            s
+        }
+        7 => r.pick(WS_EDGES).to_string(),
+        8 => {
+            // random unicode
+            let n = r.below(12);
+            (0..n).map(|_| char::from_u32(r.below(0x3000) as u32).filter(|c| *c != '\u{FEFF}').unwrap_or('q')).collect()
+        }
+        _ => format!("v{}", r.below(1000)),
+    };
+    s
+}
+
 pub fn gen_char(r: &mut Rng, pos: Pos) -> char {
+    let mode = MODE.with(|c| c.get());
+    let c = gen_char_raw(r, if mode == MODE_DOMAIN { pos } else { Pos::Attr });
+    match mode {
+        MODE_HOSTILE_RAW => {
+            PAIRS.with(|p| p.borrow_mut().push((String::new(), c.to_string())));
+            c
+        }
+        MODE_BENIGN => PAIRS.with(|p| {
+            let mut p = p.borrow_mut();
+            let tok = char::from_u32(BENIGN_CHAR_BASE + p.len() as u32).unwrap_or('c');
+            p.push((tok.to_string(), c.to_string()));
+            tok
+        }),
+        _ => c,
+    }
+}
+
+fn gen_char_raw(r: &mut Rng, pos: Pos) -> char {
     loop {
         let c = match r.below(6) {
             0 => *r.pick(&['<', '>', '&', '\'', '"', ']', '-', '?', ';', '#']),
@@ -953,5 +1013,204 @@ pub fn extra_targets() -> Vec<TypeOps> {
         ops!(Vec<(String, u8)>, "Vec<(String,u8)>"),
         ops!(u8, "u8"),
         ops!(i128, "i128"),
+    ]
+}
+
+// ---------------------------------------------------------------------------
+// serialize-only types outside the round-trippable domain (C13)
+// ---------------------------------------------------------------------------
+
+#[derive(Serialize, Debug, PartialEq, Clone)]
+#[serde(rename = "s_nestedseq")]
+pub struct NestedSeq {
+    pub t_rows: Vec<Vec<String>>,
+    #[serde(rename = "@a_grid")]
+    pub grid: Vec<Vec<u8>>,
+}
+
+#[derive(Debug, PartialEq, Clone)]
+pub struct RawBytes(pub Vec<u8>);
+impl Serialize for RawBytes {
+    fn serialize<S: serde::Serializer>(&self, s: S) -> Result<S::Ok, S::Error> {
+        s.serialize_bytes(&self.0)
+    }
+}
+#[derive(Serialize, Debug, PartialEq, Clone)]
+#[serde(rename = "s_bytes")]
+pub struct HasBytes {
+    #[serde(rename = "@a_b")]
+    pub a: RawBytes,
+    pub t_b: RawBytes,
+    #[serde(rename = "$text")]
+    pub t: RawBytes,
+}
+
+#[derive(Serialize, Debug, PartialEq, Clone, Copy)]
+pub enum Weird {
+    #[serde(rename = "<")]
+    Lt,
+    #[serde(rename = "a b")]
+    Sp,
+    #[serde(rename = "1a")]
+    Digit,
+    #[serde(rename = "")]
+    Empty,
+    #[serde(rename = "a>b")]
+    Gt,
+    #[serde(rename = "x:y")]
+    Colon,
+    #[serde(rename = "é-1")]
+    Fine,
+    #[serde(rename = "@at")]
+    At,
+    #[serde(rename = "$text")]
+    Text,
+    #[serde(rename = "-a")]
+    Dash,
+}
+pub const WEIRD_ALL: [Weird; 10] = [Weird::Lt, Weird::Sp, Weird::Digit, Weird::Empty, Weird::Gt, Weird::Colon, Weird::Fine, Weird::At, Weird::Text, Weird::Dash];
+
+#[derive(Serialize, Debug, PartialEq, Clone)]
+#[serde(rename = "s_weird")]
+pub struct WeirdHolder {
+    #[serde(rename = "@a_w")]
+    pub a: Weird,
+    pub t_w: Weird,
+    #[serde(rename = "$value")]
+    pub v: Vec<Weird>,
+}
+#[derive(Serialize, Debug, PartialEq, Clone)]
+pub enum WeirdNewtype {
+    #[serde(rename = "")]
+    Empty(String),
+    #[serde(rename = "a b")]
+    Sp(String),
+    #[serde(rename = "ok")]
+    Ok(String),
+    #[serde(rename = "<x>")]
+    Tag { t_a: String },
+}
+
+macro_rules! weird_field {
+    ($name:ident, $field:literal) => {
+        #[derive(Serialize, Debug, PartialEq, Clone)]
+        #[serde(rename = "s_weirdfield")]
+        pub struct $name {
+            pub t_before: String,
+            #[serde(rename = $field)]
+            pub bad: String,
+            pub t_after: String,
+        }
+    };
+}
+weird_field!(FieldLt, "<");
+weird_field!(FieldSp, "a b");
+weird_field!(FieldDigit, "1a");
+weird_field!(FieldEmpty, "");
+weird_field!(FieldAt, "@");
+weird_field!(FieldAtSp, "@x y");
+weird_field!(FieldAtLt, "@<");
+weird_field!(FieldAtOk, "@fine");
+weird_field!(FieldGt, "a>");
+weird_field!(FieldQuote, "a\"b");
+
+#[derive(Serialize, Debug, PartialEq, Clone)]
+#[serde(rename = "s_rec")]
+pub struct Rec {
+    #[serde(rename = "@a_d")]
+    pub d: u32,
+    pub t_v: String,
+    #[serde(skip_serializing_if = "Option::is_none")]
+    pub s_rec: Option<Box<Rec>>,
+}
+
+#[derive(Serialize, Debug, PartialEq, Clone)]
+#[serde(rename = "k_anymap")]
+pub struct AnyMap {
+    #[serde(flatten)]
+    pub m: BTreeMap<String, String>,
+}
+
+pub const KEY_POOL: &[&str] = &[
+    "", "@", "@x y", "$text", "$value", "<", ">", "a:b", "ok", "k1", "a b", "1a", "@fine", "@a<b", "é", "-x", "x-", "a.b", "@", "@@", "@$text", "xml", "xmlns", "@xmlns", "@xmlns:p", "a\"b", "a'b", "a&b",
+    "\u{0}", "@\u{0}", " ", "@ ", "a=b", "a/b", "/", "@/",
+];
+
+pub struct SerOnly {
+    pub name: &'static str,
+    pub gen: fn(&mut Rng) -> Box<dyn Val>,
+}
+
+fn gen_anymap(r: &mut Rng) -> BTreeMap<String, String> {
+    let mut m = BTreeMap::new();
+    for _ in 0..1 + r.below(4) {
+        let k = if r.chance(1, 4) { gen_key(r) } else { r.pick(KEY_POOL).to_string() };
+        m.insert(k, gen_string(r, Pos::Attr));
+    }
+    m
+}
+
+pub fn ser_only() -> Vec<SerOnly> {
+    macro_rules! so {
+        ($name:expr, $f:expr) => {
+            SerOnly { name: $name, gen: |r: &mut Rng| -> Box<dyn Val> { Box::new(($f)(r)) } }
+        };
+    }
+    vec![
+        so!("OptNoSkip", |r: &mut Rng| OptNoSkip {
+            t_a: if r.bool() { Some(gen_string(r, Pos::Attr)) } else { None },
+            b: if r.bool() { Some(r.next() as u8) } else { None },
+            s_c: if r.bool() { Some(gen_inner(r)) } else { None },
+        }),
+        so!("NestedSeq", |r: &mut Rng| NestedSeq {
+            t_rows: (0..r.below(4)).map(|_| (0..r.below(4)).map(|_| gen_string(r, Pos::Attr)).collect()).collect(),
+            grid: (0..r.below(3)).map(|_| (0..r.below(3)).map(|_| r.next() as u8).collect()).collect(),
+        }),
+        so!("HasBytes", |r: &mut Rng| HasBytes {
+            a: RawBytes(gen_string(r, Pos::Attr).into_bytes()),
+            t_b: RawBytes((0..r.below(6)).map(|_| r.next() as u8).collect()),
+            t: RawBytes(gen_string(r, Pos::Attr).into_bytes()),
+        }),
+        so!("WeirdHolder", |r: &mut Rng| WeirdHolder {
+            a: *r.pick(&WEIRD_ALL),
+            t_w: *r.pick(&WEIRD_ALL),
+            v: (0..r.below(3)).map(|_| *r.pick(&WEIRD_ALL)).collect(),
+        }),
+        so!("Weird", |r: &mut Rng| *r.pick(&WEIRD_ALL)),
+        so!("WeirdNewtype", |r: &mut Rng| match r.below(4) {
+            0 => WeirdNewtype::Empty(gen_string(r, Pos::Attr)),
+            1 => WeirdNewtype::Sp(gen_string(r, Pos::Attr)),
+            2 => WeirdNewtype::Ok(gen_string(r, Pos::Attr)),
+            _ => WeirdNewtype::Tag { t_a: gen_string(r, Pos::Attr) },
+        }),
+        so!("FieldLt", |r: &mut Rng| FieldLt { t_before: gen_string(r, Pos::Attr), bad: gen_string(r, Pos::Attr), t_after: gen_string(r, Pos::Attr) }),
+        so!("FieldSp", |r: &mut Rng| FieldSp { t_before: gen_string(r, Pos::Attr), bad: gen_string(r, Pos::Attr), t_after: gen_string(r, Pos::Attr) }),
+        so!("FieldDigit", |r: &mut Rng| FieldDigit { t_before: gen_string(r, Pos::Attr), bad: gen_string(r, Pos::Attr), t_after: gen_string(r, Pos::Attr) }),
+        so!("FieldEmpty", |r: &mut Rng| FieldEmpty { t_before: gen_string(r, Pos::Attr), bad: gen_string(r, Pos::Attr), t_after: gen_string(r, Pos::Attr) }),
+        so!("FieldAt", |r: &mut Rng| FieldAt { t_before: gen_string(r, Pos::Attr), bad: gen_string(r, Pos::Attr), t_after: gen_string(r, Pos::Attr) }),
+        so!("FieldAtSp", |r: &mut Rng| FieldAtSp { t_before: gen_string(r, Pos::Attr), bad: gen_string(r, Pos::Attr), t_after: gen_string(r, Pos::Attr) }),
+        so!("FieldAtLt", |r: &mut Rng| FieldAtLt { t_before: gen_string(r, Pos::Attr), bad: gen_string(r, Pos::Attr), t_after: gen_string(r, Pos::Attr) }),
+        so!("FieldAtOk", |r: &mut Rng| FieldAtOk { t_before: gen_string(r, Pos::Attr), bad: gen_string(r, Pos::Attr), t_after: gen_string(r, Pos::Attr) }),
+        so!("FieldGt", |r: &mut Rng| FieldGt { t_before: gen_string(r, Pos::Attr), bad: gen_string(r, Pos::Attr), t_after: gen_string(r, Pos::Attr) }),
+        so!("FieldQuote", |r: &mut Rng| FieldQuote { t_before: gen_string(r, Pos::Attr), bad: gen_string(r, Pos::Attr), t_after: gen_string(r, Pos::Attr) }),
+        so!("Rec", |r: &mut Rng| {
+            let lim = if r.chance(1, 8) { 60 } else { 6 };
+            let depth = 1 + r.below(lim);
+            let mut cur: Option<Box<Rec>> = None;
+            for d in 0..depth {
+                cur = Some(Box::new(Rec { d: d as u32, t_v: gen_string(r, Pos::Attr), s_rec: cur }));
+            }
+            *cur.unwrap()
+        }),
+        so!("BTreeMap<String,String>", |r: &mut Rng| gen_anymap(r)),
+        so!("AnyMapFlatten", |r: &mut Rng| AnyMap { m: gen_anymap(r) }),
+        so!("HasMapAnyKeys", |r: &mut Rng| HasMap { k: r.next() as u8, k_m: gen_anymap(r) }),
+        so!("Vec<String>", |r: &mut Rng| (0..r.below(4)).map(|_| gen_string(r, Pos::Attr)).collect::<Vec<String>>()),
+        so!("String", |r: &mut Rng| gen_string(r, Pos::Attr)),
+        so!("char", |r: &mut Rng| gen_char(r, Pos::Attr)),
+        so!("(String,u8)", |r: &mut Rng| (gen_string(r, Pos::Attr), r.next() as u8)),
+        so!("Option<String>", |r: &mut Rng| if r.bool() { Some(gen_string(r, Pos::Attr)) } else { None }),
+        so!("unit", |_r: &mut Rng| ()),
+        so!("UnitStruct", |_r: &mut Rng| UnitStruct),
     ]
 }
